@@ -21,7 +21,7 @@ ASSUMPTIONS = ["coefficient functions and the SDE drift are evaluated through th
                "copula drivers in dimension 2 (finite and infinite variation); the Libor model with independent components is refused by the library (NotImplementedError: no copula density)",
                "df is explored on [0, last tenor]"]
 REQUIRED_COUNTERS = ["single_paths", "coupled_paths", "constant_closed_form", "diagonal_closed_form", "df_meshes", "epsilon_checks",
-                     "copula_driver_cases", "libor_copula_driver_cases", "rates_fixing_before_maturity"]
+                     "copula_driver_cases", "libor_copula_driver_cases", "rates_fixing_before_maturity", "initial_value_given_as_int_or_list"]
 MIN_NONTRIVIAL = {"quick": 40, "thorough": 500}
 THOROUGH_ROUNDS = 3      # the thorough tier runs the generators this many times (different seeds)
 SHARD_TIMEOUT = {"quick": 900, "thorough": 7200}
@@ -136,6 +136,17 @@ def _euler(model, sde_drift, mc_drift, times, jump, diff, x0):
     return np.array(out).T        # (m, n)
 
 
+def _as_given(rng, x0, R):
+    """the initial value the way a user may write it: a float / float array, an integer (array), or a plain list"""
+    u = rng.random()
+    if u < 0.6:
+        return x0
+    R.hit("initial_value_given_as_int_or_list")
+    if u < 0.8:
+        return int(rng.integers(1, 4)) if np.ndim(x0) == 0 else np.asarray(rng.integers(1, 4, size=np.size(x0)))
+    return float(x0) if np.ndim(x0) == 0 else [float(v) for v in np.ravel(x0)]
+
+
 def _sde(case, R):
     import logging
     import warnings
@@ -174,9 +185,11 @@ def _sde(case, R):
             a = Constant(m=m, d=d, constant=float(rng.uniform(-1.5, 1.5)))
             if m > 1 or d > 1:
                 a.constant_matrix = rng.uniform(-1, 1, size=(m, d))
+            x0 = _as_given(rng, x0, R)
             model = LevyDrivenSDEModel(driver=driver, x0=x0, a=a)
         elif coef == "diagx":
             x0 = rng.uniform(0.5, 2.0, size=d) if d > 1 else float(rng.uniform(0.5, 2.0))
+            x0 = _as_given(rng, x0, R)
             model = LevyDrivenSDEModel(driver=driver, x0=x0, a=DiagX(dimension=d))
         else:
             m = int(rng.integers(2, 5))
